@@ -23,11 +23,15 @@ CLAIMED = {
     "C05": dict(
         technique="TLA+ monitor E37Mon/E37Session checked by TLC; its transition relation replayed on the real HsmsProtocol "
                   "under a deterministic scheduler (incl. PCT schedules for messages in flight at accept); every recorded "
-                  "execution validated by TLC (E37Judge)",
+                  "execution validated by TLC (E37Judge); thread-level TLA+ model HsmsEndpoint checked exhaustively by TLC and "
+                  "bound to the code by event-trace validation (HsmsEndpointTrace)",
         text="The E37 connect/select model is a TLA+ monitor whose complete labelled transition relation TLC enumerates; every "
              "edge (shortest history), random walks and every (Connect, message-in-flight) pair under PCT/random thread "
              "schedules are executed on the real HsmsProtocol and each recorded step (frames, events, deliveries, state) is "
-             "validated against the monitor by TLC. Histories exhaustive at transition granularity; schedules sampled.",
+             "validated against the monitor by TLC. Histories exhaustive at transition granularity; schedules sampled. "
+             "Connection establishment and the select procedure are additionally modelled one action per shared-state access "
+             "(conn thread, receive path, dispatcher, select thread, peer); TLC checks that model for all interleavings and "
+             "validates recorded executions of the real code (one event per access, captured with sys.settrace) as its behaviours.",
         note="FakeConnection mirrors TcpConnection's threads; T7/T8 not modelled (absent in code and property alphabet); "
              "linktest timer silenced in these histories",
         design="5/C05"),
@@ -59,12 +63,16 @@ CLAIMED = {
     "C06": dict(
         technique="implementation-shaped TLA+ model Transactions (callers, counter, response queues, dispatcher threads, peer) "
                   "checked by TLC over all interleavings + real caller threads under a deterministic scheduler (PCT, line-level "
-                  "preemption) with the driver as peer; event traces validated by TLC against the monitor TxMon",
+                  "preemption) with the driver as peer; event traces validated by TLC against the monitor TxMon and, one event per "
+                  "shared-state access, as behaviours of Transactions itself (TransactionsTrace)",
         text="TLC explores every interleaving of 3 callers, the peer (replies in any order/never, unsolicited primaries), the "
              "dispatcher and a reconnect in the code-shaped model (the original non-atomic counter and per-connection dispatcher "
              "are kept as regression witnesses TLC must refute). Real HsmsProtocol: 2-4 caller threads, replies permuted/late/"
              "missing, unsolicited primaries, reconnects, counter wrap-around, under PCT/random/fifo schedules with line-level "
-             "preemption in the counter/queue/dispatcher code; every event trace is folded through TxMon by TLC.",
+             "preemption in the counter/queue/dispatcher code, instant replies while the requesting thread resumes late; every event "
+             "trace is folded through TxMon by TLC, and the fine-grained event trace of every run (system bytes handed out, queue "
+             "registered, request written, message taken, queue put, hand-over begin/end, queue removed) must be a behaviour of "
+             "the Transactions model.",
         note="schedules of the real code are sampled (PCT depth 3), not exhausted; messages still queued for dispatch when the "
              "link drops are treated as in flight at link loss",
         design="5/C06"),
